@@ -1,13 +1,16 @@
 (* C09 (purity half) -- queries never modify the document.
    Statements only; proofs live in Proofs/EvalPure.v.
 
-   The evaluator model is a pure function of an immutable document value; the
-   single statement of the read path that writes to a loaded object
-   (`del updated_coords[idx].deepest_node_coord.node[key]`, processor.py:1644-1645,
-   collector subtraction) ends the stream with [Mut oid key].  "The document is
-   left exactly as it was" is therefore [pure_stop]: the stream does not end in
-   [Mut].  The creation half of C09 (optional queries on missing paths) belongs
-   to another model; here the node-creating branches are the parameter [creator]. *)
+   The evaluator model is a pure function of an immutable document value; a
+   statement that writes to a loaded object ends the stream with [Mut oid key].
+   "The document is left exactly as it was" is therefore [pure_stop]: the stream
+   does not end in [Mut].  The one such statement of the read paths -- the
+   deferred `del updated_coords[idx].deepest_node_coord.node[key]` of
+   _collector_subtraction, finding F16 -- was repaired (fix 30ffde4: the pairs are
+   removed from a shallow copy of the hash) and the model follows the repaired
+   code, so the statements hold for EVERY path.  The creation half of C09
+   (optional queries on missing paths) belongs to another model; here the
+   node-creating branches are the parameter [creator]. *)
 From Coq Require Import List Ascii String ZArith NArith Bool.
 From YP Require Import Outcome PyStr PyVal Doc Generated PathParser PathPrinter Searches Eval SpecC15 SpecC09
      EvalPure.
@@ -23,23 +26,21 @@ Variable kw_handler : bool -> keyword -> string -> rval -> ctx -> gen rval.
 Variable creator : list pseg -> nat -> rval -> ctx -> gen rval.
 Hypothesis kw_pure : forall inv k ps v c, nomut (kw_handler inv k ps v c).
 
-(* every path -- collectors with + and & included, any nesting -- that contains
-   no subtraction collector: a required query does not write *)
-Theorem C09_required_pure_partial :
+(* every path -- collectors with +, - and & included, any nesting, keyword
+   segments, searches, traversals, slices --: a required query does not write *)
+Theorem C09_required_pure :
   forall (p : ppath) (d : node),
-    no_sub p = true ->
     pure_stop (snd (get_required lit re_search nstr vstr kw_handler creator p d)).
 Proof. exact (get_required_pure lit re_search nstr vstr kw_handler creator kw_pure). Qed.
 
-Theorem C09_exists_pure_partial :
+Theorem C09_exists_pure :
   forall (p : ppath) (d : node),
-    no_sub p = true ->
     pure_stop (snd (exists_ lit re_search nstr vstr kw_handler creator p d)).
 Proof. exact (exists_pure lit re_search nstr vstr kw_handler creator kw_pure). Qed.
 
 End Statements.
-Print Assumptions C09_required_pure_partial.
-Print Assumptions C09_exists_pure_partial.
+Print Assumptions C09_required_pure.
+Print Assumptions C09_exists_pure.
 
 Definition lit1 (s : string) : outcome litres :=
   Ok (match py_int s with Some z => LVal (PInt z) | None => LFail end).
@@ -55,20 +56,41 @@ Definition doc_h : node :=
   NMap (inf1 0) [(leaf1 1 (PStr "h"),
                   NMap (inf1 2) [(leaf1 3 (PStr "a"), leaf1 4 (PInt 1)); (leaf1 5 (PStr "b"), leaf1 6 (PInt 2))])].
 
-(* The full statement ("for every kind of path including collectors with +, -
-   and &") is FALSE: subtracting a pair from a hash deletes it from the
-   document.  Known finding F16. *)
-Theorem C09_subtraction_refuted :
-  exists text,
-    match prepare 12 text with
-    | Ok p => no_sub p = false /\
-              snd (get_required lit1 re1 nstr1 vstr1 kw1 cr1 p doc_h) = Mut 2%N (PStr "a")
-    | _ => False
-    end.
-Proof. exists "(h)-(h.a)". vm_compute. split; reflexivity. Qed.
+(* Finding F16, now fixed: "(h)-(h.a)" used to end in [Mut 2 "a"] (the dict
+   object h lost its pair a).  The repaired subtraction answers with a reduced
+   COPY of h (a new object: identity copy_base + 2, the pair b: 2 with the
+   document's own objects 5 and 6, the coordinates of h) and ends [Done]. *)
+Example C09_subtraction_on_copy :
+  match prepare 12 "(h)-(h.a)" with
+  | Ok p => no_sub p = false /\
+            get_required lit1 re1 nstr1 vstr1 kw1 cr1 p doc_h
+            = ([RCoords (RList [RCoords (RNode (NMap (inf1 (copy_base + 2))
+                                                   [(leaf1 5 (PStr "b"), leaf1 6 (PInt 2))]))
+                                       (Some (RNode doc_h)) (Some (PStr "h")) "h" [(RNode doc_h, PStr "h")]])
+                        None None "" []], Done)
+  | _ => False
+  end.
+Proof. vm_compute. split; reflexivity. Qed.
 
-(* Non-vacuity of the guard: collector paths with + and & satisfy it and select nodes. *)
-Example C09_guard_example :
+(* a pair matched twice is removed once; the hash that is itself subtracted
+   away takes no pair of its successor with it *)
+Definition doc_hg : node :=
+  NMap (inf1 0) [(leaf1 1 (PStr "h"),
+                  NMap (inf1 2) [(leaf1 3 (PStr "a"), leaf1 4 (PInt 1)); (leaf1 5 (PStr "b"), leaf1 6 (PInt 2))]);
+                 (leaf1 7 (PStr "g"), NMap (inf1 8) [(leaf1 3 (PStr "a"), leaf1 4 (PInt 1))])].
+Example C09_subtraction_pair_twice :
+  match prepare 12 "(h)-(*.a)" with
+  | Ok p => match get_required lit1 re1 nstr1 vstr1 kw1 cr1 p doc_hg with
+            | ([RCoords (RList [RCoords (RNode (NMap i [(k, v)])) _ _ _ _]) _ _ _ _], Done) =>
+                oid i = (copy_base + 2)%N /\ node_oid k = 5%N /\ node_oid v = 6%N
+            | _ => False
+            end
+  | _ => False
+  end.
+Proof. vm_compute. repeat split; reflexivity. Qed.
+
+(* collector paths with + and & select the document's own objects *)
+Example C09_collector_example :
   match prepare 20 "(h.a)+(h.b)&(h.b)" with
   | Ok p => no_sub p = true /\
             match get_required lit1 re1 nstr1 vstr1 kw1 cr1 p doc_h with
